@@ -590,7 +590,7 @@ impl Check for GCheck {
                 v.extend([("use:parent-class", n), ("use:field-init", n), ("use:template-arg-value", n / 2), ("use:bang-body", n / 4), ("use:def-name-paste", n / 20), ("use:if-condition", n / 40), ("use:foreach-range", n / 100), ("use:cross-file", n / 4), ("dead-use:if-then-defvar", n / 100), ("dead-use:foreach-iterator", n / 100), ("decl:bang-var", n / 4), ("gen:scope:shadowing-defvar", n / 40)]);
             }
             GMode::Diagnostics => {
-                v = vec![("clean_programs", tier.pick(600, 15_000)), ("fault:undefined-class", 100), ("fault:undefined-multiclass", 30), ("fault:undefined-identifier", 100), ("fault:undefined-include", 50), ("fault:missing-template-arg", 50), ("fault:surplus-template-arg", 100), ("fault:type-incompatible-initialiser", 100), ("fault:type-incompatible-let", 50), ("fault:type-incompatible-argument", 100), ("fault:operator-arity", 50), ("fault:syntax-delete-token", 100), ("fault:syntax-insert-token", 100), ("fault_in_included_file", 50)];
+                v = vec![("clean_programs", tier.pick(600, 15_000)), ("fault:undefined-class", 100), ("fault:undefined-multiclass", 30), ("fault:undefined-identifier", 100), ("fault:undefined-include", 50), ("fault:missing-template-arg", 50), ("fault:surplus-template-arg", 100), ("fault:type-incompatible-initialiser", 100), ("fault:type-incompatible-let", 50), ("fault:type-incompatible-argument", 100), ("fault:operator-arity", 50), ("fault:operator-arity-surplus", 30), ("fault:syntax-delete-token", 100), ("fault:syntax-insert-token", 100), ("fault_in_included_file", 50)];
             }
             GMode::Outline => {
                 v.extend([("outline:Class", n), ("outline:Def", n), ("outline:Defset", n / 20), ("outline:Multiclass", n / 10), ("outline:defset-with-children", n / 20), ("gen:defset:def-under-if", n / 100), ("gen:defset:def-under-let", n / 100), ("fold:class", n), ("fold:if", n / 20), ("fold:let", n / 20)]);
